@@ -41,8 +41,20 @@ func Equal(a, b any) bool { //nolint: gocyclo
 		}
 		return a == b
 	default:
-		return a == b
+		return equalInterfaces(a, b)
 	}
+}
+
+// equalInterfaces compares two values with ==. Values that Go cannot compare
+// (maps, functions, and structs or arrays that hold them) are compared
+// structurally instead of panicking.
+func equalInterfaces(a, b any) (eq bool) {
+	defer func() {
+		if r := recover(); r != nil {
+			eq = reflect.DeepEqual(a, b)
+		}
+	}()
+	return a == b
 }
 
 // Less returns a bool indicating whether a < b.
